@@ -67,8 +67,8 @@ Consistent(F) ==
   /\ F.st # "ok" => (~F.r /\ ~F.w /\ ~F.x)
   /\ F.st = "ok" => F.pdir
   \* st = "notdir" (a regular file is in the way): x/file/below has no parent directory and no existing directory above
-  \* it but the file; x/file/../y has -- the parent facts are those of os.path.realpath, which drops "file/.." textually
-  /\ (F.st = "notdir" /\ ~F.pdir) => TRUE
+  \* it but the file; x/file/../y has -- the parent facts are those of os.path.realpath, which drops "file/.." textually:
+  \* no constraint on pdir / nedir
   /\ F.st = "noent" => F.nedir
   /\ F.pdir => (F.nedir /\ F.ndw = F.pw)
   /\ ~F.pdir => ~F.pw
